@@ -86,12 +86,12 @@ def run_diff_case(prog, params):
             sr = ScriptRunner(ex)
             t = build_both(sr, u, shape)
             key = 'mem_vs_phys|%s|%s%s' % (op, target_class(t, v), ('|dst=' + target_class(t, dst)) if dst else '')
-            if op == 'create_hold':
+            if op in ('create_hold', 'append_hold'):
                 # a create handle is held open while the path is observed, then written and dropped
                 sr.syms['wdata'] = sym_content(ex, 1, 'wdata')
                 res_ = {}
                 for pfx in ('M_', 'P_'):
-                    seq = ['hopen h%s %s%s create' % (pfx, pfx, v), 'metadata %s%s' % (pfx, v), 'read %s%s 3' % (pfx, v), 'hwrite h%s $wdata' % pfx,
+                    seq = ['hopen h%s %s%s %s' % (pfx, pfx, v, 'create' if op == 'create_hold' else 'append'), 'metadata %s%s' % (pfx, v), 'read %s%s 3' % (pfx, v), 'hwrite h%s $wdata' % pfx,
                            'hflush h%s' % pfx, 'read %s%s 3' % (pfx, v), 'hdrop h%s' % pfx]
                     outs_ = []
                     for ln in seq:
@@ -101,13 +101,13 @@ def run_diff_case(prog, params):
                         outs_.append((ln.split()[0], sr.last))
                     res_[pfx] = outs_
                 if len(res_['M_']) != len(res_['P_']):
-                    findings.append(make_finding('C02', key + '|open_handle:success_differs', 'create_file on %s succeeds on one backend only' % v, sr))
+                    findings.append(make_finding('C02', key + '|open_handle:success_differs', '%s on %s succeeds on one backend only' % (op, v), sr))
                 else:
                     for (n1, o1), (n2, o2) in zip(res_['M_'], res_['P_']):
                         mres = match(canon(o1), canon(o2))
                         if mres is False or (mres is not True and ex.check(mres, 'held') is not None):
                             findings.append(make_finding('C02', key + '|open_handle:%s_differs' % n1,
-                                                         'while a create handle on %s is open, %s returns %s on MemoryFS and %s on PhysicalFS' % (v, n1, o1.brief(), o2.brief()), sr))
+                                                         'while a %s handle on %s is open, %s returns %s on MemoryFS and %s on PhysicalFS' % (op.split('_')[0], v, n1, o1.brief(), o2.brief()), sr))
                             break
                 compare_snapshots(sr, u, key, findings, 'state_after')
                 return findings
